@@ -5,7 +5,7 @@ import ast
 
 from ..model import ENFA, NFA, DFA, EPS_TAG
 from .common import site_of
-from .flow import (own, both_answers, Oblig, calls, events, receivers, START, FINAL, STATES, SYMBOLS, DELTA_SYM, DELTA_EPS, SELF, P,
+from .flow import (code_nodes, own, both_answers, Oblig, calls, events, receivers, START, FINAL, STATES, SYMBOLS, DELTA_SYM, DELTA_EPS, SELF, P,
                    result_locs, deps_of, arg_deps, is_worklist_closure, comp)
 
 EXPLANATION = (
@@ -143,7 +143,8 @@ def run(eng, rep, tier):
                   summ, site=(appends[0].site.to_json() if appends else site_of(prog, fi, fi.node)))
     fi = prog.method("EpsilonNFA", "get_accepted_words")
     bound_ok = False
-    for lp in [x for x in ast.walk(fi.node) if isinstance(x, ast.While)]:
+    fnodes = code_nodes(prog, fi)       # the exploration loop may live in a private worker
+    for lp in [x for fnode in fnodes for x in ast.walk(fnode) if isinstance(x, ast.While)]:
         for st_ in lp.body:
             if isinstance(st_, ast.If) and "max_length" in ast.unparse(st_.test) and st_.body and \
                     isinstance(st_.body[-1], (ast.Continue, ast.Break, ast.Return)):
@@ -152,8 +153,8 @@ def run(eng, rep, tier):
               "inside the exploration loop the length bound cuts the expansion of a path",
               "the length bound does not guard the expansion of paths inside the exploration loop", None,
               site=site_of(prog, fi, fi.node))
-    yields = [y for y in ast.walk(fi.node) if isinstance(y, ast.Yield)]
-    guarded = all(_under_try_add(fi.node, y) for y in yields)
+    yields = [(fnode, y) for fnode in fnodes for y in ast.walk(fnode) if isinstance(y, ast.Yield)]
+    guarded = all(_under_try_add(fnode, y) for fnode, y in yields)
     ob.decide("R1", "C04.4", fi, "yield-guarded-by-duplicate-set", bool(yields) and guarded,
               "every yield is guarded by the insertion test into the set of yielded words",
               "a word can be yielded without passing the duplicate test", None, site=site_of(prog, fi, fi.node))
